@@ -85,8 +85,10 @@ def gen(rng):
         elif r < 0.75:
             ops.append({'op': 'delete'})
         elif r < 0.85:
-            ops.append({'op': 'jiraerr', 'code': rng.choice([404, 500, 502,
-                                                             401])})
+            # the service fails for the next 1..4 calls (one evaluation)
+            ops.append({'op': 'jiraerr', 'code': rng.choice(
+                [404, 500, 502, 401, 429, 503, 429, 503]),
+                'n': rng.choice([1, 1, 2, 3, 4])})
         elif r < 0.92:
             ops.append({'op': 'comment', 'by': rng.choice(['root', 'alice',
                                                            'carol']),
@@ -182,7 +184,7 @@ class Session:
             key = self.key_of_src()
             self.jira.issues.pop(key, None)
         elif k == 'jiraerr':
-            self.pending_fail = op['code']
+            self.pending_fail = (op['code'], op.get('n', 1))
         elif k == 'comment':
             repo = self.clients[op['by']].get_repository('s', owner='o')
             repo.gitrepo = R._Env.gitstub
@@ -213,10 +215,11 @@ class Session:
         job.git.src_branch = branch_factory(repo, cfg['src'])
         job.git.dst_branch = branch_factory(repo, cfg['dst'])
         job.git.cascade = casc[4]
-        fail = self.pending_fail
+        fail, nfail = self.pending_fail or (None, None)
         self.pending_fail = None
         self.jira.fail_next = fail
-        calls0 = self.jira.calls
+        self.jira.fail_left = nfail
+        calls0, failed0 = self.jira.calls, self.jira.failed
         out = {'versions': casc[3], 'jira_fail': fail,
                'opts': {'bypass_jira_check': bool(
                    job.settings.bypass_jira_check or
@@ -230,9 +233,14 @@ class Session:
             out['outcome'] = 'error'
         except Exception as err:
             out['outcome'] = 'crash:' + type(err).__name__
-        if self.jira.calls == calls0:
-            # Jira was not consulted: the injected failure did not happen
-            self.jira.fail_next = None
+        ncalls = self.jira.calls - calls0
+        nfailed = self.jira.failed - failed0
+        # the failure is scoped to this evaluation
+        self.jira.fail_next = None
+        self.jira.fail_left = None
+        if ncalls == 0 or nfailed < ncalls:
+            # Jira was not consulted, or a retry got a real answer: the
+            # reference judges the issue as it is
             out['jira_fail'] = None
         return out
 
